@@ -7,6 +7,7 @@ import (
 	"github.com/idena-network/idena-go/common"
 
 	"github.com/idena-network/idena-go/blockchain/attachments"
+	"github.com/idena-network/idena-go/blockchain/fee"
 	"github.com/idena-network/idena-go/blockchain/types"
 	"github.com/idena-network/idena-go/config"
 	"github.com/idena-network/idena-go/core/appstate"
@@ -28,6 +29,18 @@ func vConfig() *config.Config {
 func vPayload(w *appstate.VWorld, t types.TxType) []byte {
 	if vPrefixReduced {
 		return nil
+	}
+	if VFewPayloadShapes {
+		switch t {
+		case types.SubmitFlipTx, types.OnlineStatusTx, types.BurnTx, types.ChangeProfileTx, types.DeleteFlipTx, types.SubmitShortAnswersTx,
+			types.SubmitLongAnswersTx, types.StoreToIpfsTx, types.SubmitAnswersHashTx, types.ActivationTx, types.CallContractTx, types.DeployContractTx, types.TerminateContractTx:
+		default:
+			// no attachment is ever read for this type: absent or some bytes
+			if vBool("payload.absent") {
+				return nil
+			}
+			return []byte{7}
+		}
 	}
 	switch vChoice("payloadShape", 4) {
 	case 0:
@@ -134,6 +147,7 @@ func H_C12a_PrefixQuick() {
 }
 
 var vPrefixReduced bool
+var VFewPayloadShapes bool
 
 func vPrefix(t types.TxType) {
 	w, tx, minFee, kind := vSetup(t)
@@ -151,6 +165,11 @@ func vPrefix(t types.TxType) {
 		vCover("accepted")
 		vAssert(vNoopReached, "accept only through a per-type validator")
 		vAssert(vPrefixPost(w, tx, kind), "ValidateTx prefix establishes: non-negative amounts, current-or-later epoch, fresh nonce, funded sender")
+		if kind == InBlockTx {
+			if _, isContract := contractTxs[t]; !isContract {
+				vAssert(VPrefixPostInBlock(w, tx), "in-block ValidateTx prefix establishes: balance covers amount+tips+fee at the state fee rate, fee <= maxFee")
+			}
+		}
 	} else {
 		vCover("rejected")
 	}
@@ -407,3 +426,31 @@ func vNonNegBig(name string) *big.Int {
 	vAssume(b.Sign() >= 0)
 	return b
 }
+
+// ---- exports for the one-step harness in package blockchain ----
+
+func VSetup(t types.TxType) (*appstate.VWorld, *types.Transaction, *big.Int, TxType) {
+	return vSetup(t)
+}
+
+// VRunValidator calls the registered per-type validator directly.
+func VRunValidator(t types.TxType, app *appstate.AppState, tx *types.Transaction, kind TxType) error {
+	return validators[t](app, tx, kind)
+}
+
+func VPrefixPost(w *appstate.VWorld, tx *types.Transaction, kind TxType) bool {
+	return vPrefixPost(w, tx, kind)
+}
+
+// VPrefixPostInBlock: what the prefix establishes for a transaction validated as part of a block, in
+// addition to VPrefixPost: the sender can pay amount + tips + fee at the state's fee rate and that fee
+// does not exceed the declared maximum (non-contract types). Uses the real fee.CalculateFee.
+func VPrefixPostInBlock(w *appstate.VWorld, tx *types.Transaction) bool {
+	st := w.App.State
+	f := fee.CalculateFee(w.App.ValidatorsCache.NetworkSize(), st.FeePerGas(), tx)
+	cost := new(big.Int).Add(vBigOr0(tx.Amount), vBigOr0(tx.Tips))
+	cost.Add(cost, f)
+	return vAnd(st.GetBalance(w.S).Cmp(cost) >= 0, f.Cmp(vBigOr0(tx.MaxFee)) <= 0)
+}
+
+func VAppConfig() *config.Config { return appCfg }
